@@ -216,6 +216,12 @@ def gen_cases(tier, seed):
                       'opts': {'anti': r.random() < 0.5, 'split': None, 'bk': 0},
                       'mseed': r.randrange(1 << 30)})
         k += 1
+        # the same orbit through exploit_perm_sym (lossless re-expansion)
+        cases.append({'id': f'C10-{tier[0]}{seed}-{k:05d}-perm3',
+                      'kind': 'perm', 'terms': terms, 'order': list(order),
+                      'opts': {'anti': r.random() < 0.5, 'split': None, 'bk': 0},
+                      'mseed': r.randrange(1 << 30)})
+        k += 1
     # (c) sorting / filtering
     for _ in range(110 * mult):
         spin = r.random() < 0.2
